@@ -21,6 +21,7 @@ func init() {
 			"R2 io.Reader.Read usage contract at every Read of a non-transport reader in the core and utils: the count is used, the bytes buf[:n] are consumed on a path that is not conditional on err == nil (data returned together with io.EOF), the slice written is buf[:n] of that n; ReadByte returns a byte only when n > 0; " +
 			"R3 ReadFrom compares the written count with the read count and returns the write error before reading more; R4 ToReader's cases are a subset of ToBytes', both have an error-returning default, MustTo* panic on error, StealBytes compares the reported count with the stolen length, CountOf sums every element; " +
 			"R5 io.Writer implementations in go-netty do not retain p (no store of p or a slice of it into a field / global / channel; copies only); R6 the wrappers keep one write sink (shared with C17). " +
+			"ALSO: ReadFrom's failed-write exit returns the write's error; assert helpers raise for every non-nil error; pool buffers are requested by byte count. " +
 			"DOES NOT DECIDE: content equality; arbitrary user WriterTo implementations beyond R5's contract.",
 		Assumptions: []string{"io.Reader / io.Writer contracts as documented"},
 		Run:         runC14,
